@@ -14,7 +14,7 @@ META = {
     "level": "exploration",
     "engine": "E1 runtime scenario engine",
     "rule": (
-        "seeded random scenarios: sequences of 1-30 execute calls over flavour (3) x calling context (outside "
+        "kind=restart: executes of every flavour in 2-3 successive runs of the same (70 %) or a new runner; kind=random: seeded random scenarios: sequences of 1-30 execute calls over flavour (3) x kind of callable (function, lambda, wrapped, partial, callable object, bound method, plain function with a synchronous first section, the same marked as coroutine function) x calling context (outside "
         "thread, thread payload, coroutine payload of the other coroutine flavour, helper threads calling "
         "concurrently) x outcome (None, falsy, mutable and large return objects; Exception subclasses incl. "
         "KeyError, TimeoutError, RuntimeError, exceptions with attributes) x argument shapes, nested executes "
@@ -38,8 +38,9 @@ ARGS = [([], {}), ([1], {}), ([], {"k": 1}), ([1, "two"], {"k": 1}), ([[1, 2]], 
 
 def plan(tier, seed):
     if tier == "thorough":
-        return [dict(seed=seed, shard=i, n=60, kind="random") for i in range(16)] + [dict(seed=seed, shard="known", n=1, kind="known")]
-    return [dict(seed=seed, shard=i, n=5, kind="random") for i in range(16)] + [dict(seed=seed, shard="known", n=1, kind="known")]
+        return [dict(seed=seed, shard=i, n=60, kind="random") for i in range(16)] + [dict(seed=seed, shard="known", n=1, kind="known"), dict(seed=seed, shard="restart", n=40, kind="restart")]
+    return [dict(seed=seed, shard=i, n=5, kind="random") for i in range(16)] + [dict(seed=seed, shard="known", n=1, kind="known"),
+                                                                                dict(seed=seed, shard="restart", n=6, kind="restart")]
 
 
 def executed(rnd, pid, flavour, extra=None):
@@ -51,7 +52,7 @@ def executed(rnd, pid, flavour, extra=None):
         outcome = ["raise", rnd.choice(RAISES + (["StopIteration", "StopIteration"] if flavour == "threading" else []))]
     pre = rnd.choice([[], [], [["sleep", 0.005]], [["ctx"]]])
     # what is handed to execute need not be a plain (coroutine) function: anything callable that gives the right thing will do
-    how = rnd.choice(["function", "function", "lambda", "wrapped", "partial", "object", "method"])
+    how = rnd.choice(["function", "function", "lambda", "wrapped", "partial", "object", "method", "prefixed", "marked"])
     return {"id": pid, "flavour": flavour, "executed": True, "args": a, "kwargs": k, "cleanup": {"kind": "none"},
             "program": pre + (extra or []) + [outcome], "outcome": outcome, "callable": how}
 
@@ -181,6 +182,14 @@ def judge(case, run, result):
         result.count("executes_of_callable_kind_%s" % sp.get("callable", "function"))
         if not st["args_ok"]:
             problems.append(("execute(%s): payload did not receive exactly the supplied arguments %r %r" % (pid, sp["args"], sp["kwargs"]), None))
+        # a plain callable's synchronous first section (logged as step -1) belongs to the flavour's runner like the rest
+        for pre in [e for e in run.of("step", gen=0, pid=pid) if e.get("n") == -1]:
+            result.count("synchronous_first_sections_checked")
+            if sp["flavour"] == "asyncio" and (pre["lib"] != "asyncio" or pre["loop"] != homes.get("loop")):
+                problems.append(("execute(%s, flavour=asyncio): the payload's first section ran outside the runtime's event loop (lib=%s, loop thread=%s)"
+                                 % (pid, pre["lib"], pre["main"]), None))
+            if sp["flavour"] == "trio" and (pre["lib"] != "trio" or pre["token"] != homes.get("token")):
+                problems.append(("execute(%s, flavour=trio): the payload's first section ran outside the runtime's trio run (lib=%s)" % (pid, pre["lib"]), None))
         if sp["flavour"] == "asyncio":
             if st["lib"] != "asyncio" or not st["main"] or st["loop"] != homes.get("loop"):
                 problems.append(("execute(%s, flavour=asyncio) ran outside the runtime's event loop (lib=%s, loop thread=%s, same loop=%s)"
@@ -238,15 +247,68 @@ def judge(case, run, result):
     return problems[:5]
 
 
+def gen_restart(rnd, spec):
+    """execute() keeps working after the same runner (or a new one) has been stopped and accepts again."""
+    gens = []
+    calls = []
+    for g in range(rnd.choice([2, 3])):
+        gen = {"accept_delay": 0.03, "payloads": [], "services": [], "grace": 0.15}
+        script = [["wait_running", 10]]
+        for fl in rnd.sample(common.FLAVOURS, 3):
+            p = executed(rnd, "r%d_%s" % (g, fl), fl)
+            p["outcome"] = ["return", rnd.choice(["str", "object", "dict"])]
+            p["program"] = [["sleep", 0.005], p["outcome"]]
+            gen["payloads"].append(p)
+            script.append(["execute", p["id"]])
+            calls.append(p["id"])
+        script += [["shutdown"], ["expect_end", 8.0]]
+        gen["script"] = script
+        if g > 0 and rnd.random() < 0.7:
+            gen["reuse_runner"] = True
+        gens.append(gen)
+    return {"watchdog": 40, "inject": common.inject_conf(rnd, 0.5), "generations": gens, "meta": {"kind": "restart", "calls": calls}}
+
+
+def judge_restart(case, run, result):
+    trouble = common.harness_trouble(run)
+    if trouble:
+        result.inconc(trouble)
+        return []
+    problems = []
+    for g, gen in enumerate(case["generations"]):
+        if run.first("running-observed", gen=g) is None:
+            problems.append(("generation %d never reached running" % g, None))
+            break
+        for p in gen["payloads"]:
+            outs = [e for e in run.events if e.get("gen") == g and e.get("op") == "execute" and e.get("pid") == p["id"] and e["kind"] in ("return", "raised")]
+            starts = run.of("start", gen=g, pid=p["id"])
+            what = None
+            if len(outs) != 1:
+                what = "never delivered an outcome"
+            elif outs[0]["kind"] != "return" or not outs[0].get("same_object"):
+                what = "gave the caller %s(%s) instead of the object the payload returned" % (outs[0].get("exc", "another object"), outs[0].get("msg", outs[0].get("repr")))
+            elif len(starts) != 1:
+                what = "ran the payload %d times" % len(starts)
+            if what:
+                problems.append(("generation %d%s: execute(%s, flavour=%s) %s" % (g, " (the same runner accepting again)" if gen.get("reuse_runner") else "", p["id"], p["flavour"], what), None))
+            else:
+                result.count("executes_after_a_restart" if g else "executes_judged")
+                if g and gen.get("reuse_runner"):
+                    result.count("executes_on_a_runner_accepting_again")
+    return problems[:4]
+
+
 def execute(case, result):
     run = common.run_and_observe(case, result)
+    if case["meta"].get("kind") == "restart":
+        return judge_restart(case, run, result), run
     return judge(case, run, result), run
 
 
 def run_shard(spec):
     result = core.Result()
     only = spec.get("only_case")
-    gen = gen_known if spec["kind"] == "known" else gen_case
+    gen = {"known": gen_known, "restart": gen_restart}.get(spec["kind"], gen_case)
     for i in range(spec["n"]):
         if only is not None and i != only:
             continue
@@ -265,7 +327,8 @@ def finish(total, tier):
             "executes_asyncio_from_outside", "executes_trio_from_outside", "executes_threading_from_outside",
             "executes_asyncio_from_tcaller", "executes_trio_from_tcaller", "executes_trio_from_ccaller", "executes_asyncio_from_ccaller"]
     need += ["awaitable_results_returned_as_they_are_%s" % f for f in common.FLAVOURS]
-    need += ["executes_of_callable_kind_%s" % k for k in ("function", "lambda", "wrapped", "partial", "object", "method")]
+    need += ["executes_of_callable_kind_%s" % k for k in ("function", "lambda", "wrapped", "partial", "object", "method", "prefixed", "marked")]
+    need += ["synchronous_first_sections_checked", "executes_after_a_restart", "executes_on_a_runner_accepting_again"]
     for name in need:
         if not total.counters.get(name) and not total.violations:
             total.inconc("monitor never observed: " + name)
